@@ -14,6 +14,7 @@ RULE = ("Sentences of the reference grammar from the typed program generator ove
         "succeeds and every evaluation on type-compatible inputs ends in a group of the program or the unroutable error. "
         "Non-trivial = uses a keyword-prefixed identifier, a shared splitter/condition field, an identifier or tuple inside a "
         "tuple, chain>=10, nesting>=4 or >=16 groups; distinct by text.")
+RULE += (' Since round 6: the stated maxima combined (12 levels x 60-link chains on one path).')
 ASSUMPTIONS = [
     "identifiers that are Python reserved words or names of the generated code's helpers are excluded from the main "
     "generator (known finding K1, probed separately); `elseif` is excluded (documented regex else\\s*if reads it as a keyword)",
